@@ -29,7 +29,7 @@ import (
 // the path to an inlined call are copied. Only unexported helpers are inlined
 // (exported functions are API the rules name), and none for which p.Opaque
 // answers true (helpers a rule treats as one step). A helper is not inlined when it
-// defers, recovers, has named results, labels or gotos, is variadic without an
+// defers, recovers, uses named results (names that are never mentioned and never returned bare do not count), has labels or gotos, is variadic without an
 // ellipsis call, recurses, or would appear twice in the same flattened body.
 // When nothing is inlined the function itself is returned.
 func (p *Program) Flatten(f *Func) *Func {
@@ -180,8 +180,32 @@ func (fl *flattener) helperOf(c *ast.CallExpr) *Func {
 		return nil // f(g()) multi-value forwarding
 	}
 	if h.Decl.Type.Results != nil {
+		// named results are accepted when they are mere documentation: every return lists its results and the
+		// body never mentions the names
+		named := map[types.Object]bool{}
 		for _, fld := range h.Decl.Type.Results.List {
-			if len(fld.Names) > 0 {
+			for _, n := range fld.Names {
+				if o := fl.info.Defs[n]; o != nil && n.Name != "_" {
+					named[o] = true
+				}
+			}
+		}
+		if len(named) > 0 {
+			used := false
+			ast.Inspect(h.Body, func(n ast.Node) bool {
+				switch x := n.(type) {
+				case *ast.Ident:
+					if named[fl.info.Uses[x]] || named[fl.info.Defs[x]] {
+						used = true
+					}
+				case *ast.ReturnStmt:
+					if len(x.Results) == 0 {
+						used = true // a bare return reads them
+					}
+				}
+				return !used
+			})
+			if used {
 				return nil
 			}
 		}
